@@ -28,7 +28,10 @@ PROPS = {
                     "model has one conn per engine (demultiplexing by descriptor is exercised by hlife with up to four conns) and UDP "
                     "sessions only grow; the model admits spurious reports and does not model write interest, so 'readers go idle' is "
                     "proved for the internal steps between reports and MEASURED (idle CPU in a 60 ms window, incl. after an immediate "
-                    "DialAsync connect) on real sockets; NPoller only selects the poller; read-call counters on the simulated kernel",
+                    "DialAsync connect) on real sockets; NPoller only selects the poller; read-call counters on the simulated kernel; "
+                    "the executor is not a model parameter: task steps interleave arbitrarily, assuming any IOExecute runs each submitted "
+                    "task exactly once; def/park/real are harness wrappers; c02_udp_demux assumes well-formed addresses of one family; "
+                    "ATTRIBUTION_SENTENCE",
             "technique": "Lean 4 proof (inductive invariant over a small-step transition system, decreasing measure) + differential correspondence"},
         "lean": ["NbioVerif.Properties.C02", srcgen.BRIDGE_CONN], "drivers": ["gatedrv"], "harness": ["hread"],
         "facts": [srcgen.src_facts],
@@ -73,7 +76,10 @@ PROPS = {
                     "the oracle c03-first-cause) — every other op is serialized by the harness; listener-closes-sessions and "
                     "Stop-closes-the-table are compositions in the driver over single-conn models (sampled, not proved); model "
                     "fidelity is sampled on every run; the real-socket steps (accept, client close/reset, real refused dial, peer FIN "
-                    "on a dialed conn) are supporting evidence",
+                    "on a dialed conn) are supporting evidence; c03_closed_ops holds by definition of the model's op/flip steps; that the "
+                    "five entry points test the flag under the mutex rests on the closed-test predicates and the ops/log= correspondence; "
+                    "the wait-group ghost is not an observable of the correspondence; it is tied only through 'Stop returns' and Go's "
+                    "negative-counter panic",
             "technique": "Lean 4 proof (inductive invariant over a small-step transition system) + differential correspondence"},
         "lean": ["NbioVerif.Properties.C03", srcgen.BRIDGE_CONN], "drivers": ["lifedrv"], "harness": ["hlife"],
         "facts": [srcgen.src_facts],
